@@ -10,6 +10,10 @@
    (skipped lines, EOF inside the skipped prefix, errors), the in-memory record container csvRecordsWriter,
    the reflect operations Grow / SetCap / SetLen / Copy on the destination table as checked operations on
    (len, cap), and a small store for the record buffer that csv.Reader reuses under ReuseRecord.
+   The model mirrors the code AFTER the repairs F-C16-1..5. Each repaired branch is selected by a boolean constant
+   (table_resets_len, records_writer_copies, marshaler_gets_reader_opts, nil_is_refused, row_type_checked, all true);
+   the value false is the code as it was found (kept so that the old behaviour stays documented and testable,
+   see t_store_before_fix_panics and alias_before_fix in the proofs).
    Definitions only; proofs are in Proofs/CSVGlueProofs.v. *)
 From Coq Require Import List ZArith Bool Arith.
 From V Require Import Bytes.
